@@ -384,44 +384,90 @@ func c03R2(c *Ctx, r *Report) {
 		}
 		var problems []string
 		found := 0
-		ast.Inspect(fd.Body, func(n ast.Node) bool {
-			ifs, ok := n.(*ast.IfStmt)
+		isDDDTest := func(st ast.Stmt) *ast.IfStmt {
+			ifs, ok := st.(*ast.IfStmt)
 			if !ok {
-				return true
+				return nil
 			}
 			call, ok := ast.Unparen(ifs.Cond).(*ast.CallExpr)
 			if !ok || c.calleeName(call) != "isDDD" {
-				return true
+				return nil
 			}
-			found++
-			for bi, blk := range []*ast.BlockStmt{ifs.Body, func() *ast.BlockStmt {
-				if e, ok := ifs.Else.(*ast.BlockStmt); ok {
-					return e
+			return ifs
+		}
+		// the statement list the test stands in is walked once for either outcome, with the constants the locals
+		// hold (skip := 1; if isDDD(..) { skip = 3 }; i += skip; begin += skip counts like the two-armed form)
+		var walkList func(list []ast.Stmt, ddd bool, env, deltas map[string]int64)
+		walkList = func(list []ast.Stmt, ddd bool, env, deltas map[string]int64) {
+			val := func(e ast.Expr) (int64, bool) {
+				if k, isK := c.exprConst(e); isK {
+					return k, true
 				}
-				return &ast.BlockStmt{}
-			}()} {
-				deltas := map[string]int64{}
-				for _, s := range blk.List {
-					switch st := s.(type) {
-					case *ast.AssignStmt:
-						if len(st.Lhs) == 1 && len(st.Rhs) == 1 {
-							if k, isK := c.exprConst(st.Rhs[0]); isK {
-								switch st.Tok {
-								case token.ADD_ASSIGN:
-									deltas[identName(st.Lhs[0])] += k
-								case token.SUB_ASSIGN:
-									deltas[identName(st.Lhs[0])] -= k
-								}
-							}
-						}
-					case *ast.IncDecStmt:
-						if st.Tok == token.INC {
-							deltas[identName(st.X)]++
+				k, has := env[identName(e)]
+				return k, has && identName(e) != ""
+			}
+			for _, s := range list {
+				if ifs := isDDDTest(s); ifs != nil {
+					if ddd {
+						walkList(ifs.Body.List, ddd, env, deltas)
+					} else if e, ok := ifs.Else.(*ast.BlockStmt); ok {
+						walkList(e.List, ddd, env, deltas)
+					}
+					continue
+				}
+				switch st := s.(type) {
+				case *ast.AssignStmt:
+					if len(st.Lhs) != 1 || len(st.Rhs) != 1 || identName(st.Lhs[0]) == "" {
+						continue
+					}
+					name := identName(st.Lhs[0])
+					k, isK := val(st.Rhs[0])
+					switch st.Tok {
+					case token.DEFINE, token.ASSIGN:
+						if isK {
+							env[name] = k
 						} else {
-							deltas[identName(st.X)]--
+							delete(env, name)
+						}
+					case token.ADD_ASSIGN:
+						if isK {
+							deltas[name] += k
+						}
+					case token.SUB_ASSIGN:
+						if isK {
+							deltas[name] -= k
 						}
 					}
+				case *ast.IncDecStmt:
+					if st.Tok == token.INC {
+						deltas[identName(st.X)]++
+					} else {
+						deltas[identName(st.X)]--
+					}
 				}
+			}
+		}
+		var lists [][]ast.Stmt
+		ast.Inspect(fd.Body, func(n ast.Node) bool {
+			var list []ast.Stmt
+			switch t := n.(type) {
+			case *ast.BlockStmt:
+				list = t.List
+			case *ast.CaseClause:
+				list = t.Body
+			}
+			for _, st := range list {
+				if isDDDTest(st) != nil {
+					lists = append(lists, list)
+					found++
+				}
+			}
+			return true
+		})
+		for _, list := range lists {
+			for bi, ddd := range []bool{true, false} {
+				deltas := map[string]int64{}
+				walkList(list, ddd, map[string]int64{}, deltas)
 				want := int64(3)
 				if bi == 1 {
 					want = 1
@@ -438,11 +484,14 @@ func c03R2(c *Ctx, r *Report) {
 					if bi == 1 {
 						form = `\c`
 					}
-					problems = append(problems, fmt.Sprintf("%s: for the %s form %s moves by %d and %s by %d; both must move by %d (the escape's extra characters are not part of the label)", c.pos(blk.Pos()), form, spec.a, da, spec.b, db, want))
+					pos := "-"
+					if len(list) > 0 {
+						pos = c.pos(list[0].Pos())
+					}
+					problems = append(problems, fmt.Sprintf("%s: for the %s form %s moves by %d and %s by %d; both must move by %d (the escape's extra characters are not part of the label)", pos, form, spec.a, da, spec.b, db, want))
 				}
 			}
-			return true
-		})
+		}
 		if found != 1 {
 			problems = append(problems, fmt.Sprintf("%d isDDD branches", found))
 		}
